@@ -318,6 +318,8 @@ class ConcCtx:
     def angle(self, name, divisor=1):
         cn = f"cos[{name}/{divisor}]" if divisor != 1 else f"cos[{name}]"
         sn = f"sin[{name}/{divisor}]" if divisor != 1 else f"sin[{name}]"
+        if name in self.used_values:
+            return self.used_values[name]
         if name in self.values:
             v = float(self.values[name])
         elif cn in self.values or sn in self.values:
